@@ -15,7 +15,8 @@ import random
 import cli_common as K
 import common as C
 
-BAD = ["birch", "generator", "getstate", "reduce", "dok", "lil", "complex", "memoryview", "module", "objarray"]
+BAD = ["birch", "generator", "getstate", "getstate_StopIteration", "reduce", "dok", "getstate_KeyError", "lil", "complex", "getstate_AttributeError",
+       "memoryview", "module", "getstate_TypeError", "objarray"]
 SINKS = ["existing", "new", "fileobj_new", "fileobj_existing"]
 TARGET = "/S/d/model.skops"
 
@@ -84,6 +85,10 @@ def make_cases(R):
             for bad in kinds:
                 for sink in SINKS:
                     cases.append({"spec": spec, "hole": pos, "bad": bad, "sink": sink, "struct": si, "as_str": rnd.random() < 0.5})
+            if si == 0:
+                # the fixed structure sees EVERY bad kind at every position (one rotating sink each), whatever the tier
+                for j, bad in enumerate(b for b in BAD if b not in kinds):
+                    cases.append({"spec": spec, "hole": pos, "bad": bad, "sink": SINKS[(k + j) % len(SINKS)], "struct": si, "as_str": j % 2 == 0})
     return cases
 
 
